@@ -99,6 +99,7 @@ where
         status_on_unsat: bool,
     ) -> (bool, Option<Vec<&Argument<T>>>) {
         let mut merged = Vec::new();
+        let mut found_arg_in_model = false;
         for cc_af in ConnectedComponentsComputer::iter_connected_components(self.af) {
             let mut solver = (self.solver_factory)();
             self.constraints_encoder
@@ -124,11 +125,21 @@ where
                         .map(|a| self.constraints_encoder.arg_to_lit(a).negate())
                         .collect::<Vec<Literal>>()
                 };
-                let result = solver
+                let mut result = solver
                     .solve_under_assumptions(&assumption_lits)
                     .unwrap_model();
                 if assumption_polarity {
                     solver.add_clause(vec![opt_selector.unwrap().negate()]);
+                    if result.is_some() {
+                        found_arg_in_model = true;
+                    } else {
+                        // no extension of this component contains one of the arguments;
+                        // another component may, provided this one has an extension at all
+                        let mut solver = (self.solver_factory)();
+                        self.constraints_encoder
+                            .encode_constraints(&cc_af, solver.as_mut());
+                        result = solver.solve().unwrap_model();
+                    }
                 }
                 match result {
                     Some(assignment) => {
@@ -164,6 +175,9 @@ where
                     None => return (status_on_unsat, None),
                 }
             }
+        }
+        if assumption_polarity && !found_arg_in_model {
+            return (status_on_unsat, None);
         }
         (!status_on_unsat, Some(merged))
     }
